@@ -9,6 +9,7 @@ notes = json.load(open(os.path.join(V, "seeded/NOTES.json")))
 print("| seed | files | change (one line) | needs to manifest | result of `./check <id> quick` on the changed tree | note |")
 print("|---|---|---|---|---|---|")
 tot = caught = 0
+seeds = own = sibling = 0
 for d in sorted(glob.glob(os.path.join(V, "seeded/C*-*"))):
     sid = os.path.basename(d)
     m = json.load(open(d + "/meta.json"))
@@ -19,8 +20,15 @@ for d in sorted(glob.glob(os.path.join(V, "seeded/C*-*"))):
         res.append("%s: **%s**%s" % (c, x.get("verdict"), (" `%s`" % sig[:90]) if sig else ""))
         tot += 1
         caught += x.get("verdict") == "caught"
+    cs = v.get("checks") or {}
+    pid = sid.split("-")[0]
+    seeds += 1
+    if (cs.get(pid) or {}).get("verdict") == "caught":
+        own += 1
+    elif any(x.get("verdict") == "caught" for x in cs.values()):
+        sibling += 1
     one = lambda s, n: " ".join((s or "").replace("|", "/").split())[:n]
     print("| %s | %s | %s | %s | %s | %s |" % (sid, ", ".join(os.path.basename(f) for f in m.get("files_changed", [])), one(m.get("summary"), 230), one(m.get("needs_to_manifest"), 200),
                                          "; ".join(res), notes.get(sid, "caught by the check as first written")))
 print()
-print("%d of %d seeded changes are caught at repo HEAD %s." % (caught, tot, "(see meta.json per seed)"))
+print("%d seeded changes: %d caught by the check of the property they were aimed at, %d only by the check of a sibling property, %d not caught (see the notes)." % (seeds, own, sibling, seeds - own - sibling))
